@@ -5,6 +5,7 @@ from .._change import Change
 from .._change import Delete
 from .._change import ListInsert
 from .._change import Replace
+from .._code_repr import code_repr
 from .._global_state import state
 from .._sentinels import undefined
 from .._utils import normalize
@@ -25,6 +26,24 @@ def contains(values, item):
         except Exception:
             pass
     return False
+
+
+def ordered(values):
+    """The elements as list.
+
+    The iteration order of a set depends on the hash seed, the elements
+    are sorted like in the code of the set.
+    """
+    if not isinstance(values, (set, frozenset)):
+        return list(values)
+
+    try:
+        result = sorted(values)
+        if all(a < b for a, b in zip(result, result[1:])):
+            return result
+    except TypeError:
+        pass
+    return sorted(values, key=code_repr)
 
 
 class CollectionValue(GenericValue):
@@ -68,7 +87,7 @@ class CollectionValue(GenericValue):
                 if not state().update_flags.trim:
                     # only the missing values are added,
                     # the values which were not tested are kept
-                    new_value = list(self._old_value) + [
+                    new_value = ordered(self._old_value) + [
                         v for v in new_value if not contains(self._old_value, v)
                     ]
             elif any(not contains(self._new_value, v) for v in self._old_value):
